@@ -4,14 +4,15 @@ per property, which known findings were witnessed.  Output: tools/witnessed.json
 with what is already there)."""
 import json, os, subprocess, sys, tempfile, shutil
 tier = sys.argv[1]; seeds = sys.argv[2:]
-out_path = '/verif/tools/witnessed.json'
+HERE = os.path.dirname(os.path.abspath(__file__)); ROOT = os.path.dirname(HERE)
+out_path = os.path.join(HERE, 'witnessed.json')
 acc = json.load(open(out_path)) if os.path.exists(out_path) else {}
 props = ["C%02d" % i for i in range(1, 21)]
 for seed in seeds:
     for p in props:
         ev = tempfile.mkdtemp(prefix='ws_')
         e = dict(os.environ, DTVERIF_EVIDENCE_DIR=ev, VERIF_SEED=seed)
-        r = subprocess.run(['/venv/bin/python', '-m', 'dtverif.run', p, '--tier', tier], cwd='/verif', env=e, capture_output=True, text=True)
+        r = subprocess.run(['/venv/bin/python', '-m', 'dtverif.run', p, '--tier', tier], cwd=ROOT, env=e, capture_output=True, text=True)
         try:
             cov = json.load(open(os.path.join(ev, p + '.json')))['coverage']
             for fid, n in cov.get('known_findings_seen', {}).items():
